@@ -69,6 +69,17 @@ CLAIMED = {
   note=COMMON_NOTE + "standard diff logics only (vendor %diff_logic and %multiline out of scope by the property text); text "
        "round trip is oracle-only (formatter not yet in the Lean model).",
   design="§5 C03", technique="Lean 4 proof (sorting/index invariants, mutual induction) + differential correspondence"),
+ "C19": dict(
+  text="Lean theorems over the model of run_file_generators/add_entire/new_files, str.splitlines, UnifiedFileDiffer, pc_diff and "
+       "PCDeployerJob.parse_result (any generator list, file maps, flags): the stored result for a path is the argmax-priority one "
+       "and independent of listing order; files[p] is the generated content; cmds has p iff uploaded and reloads enabled; equal "
+       "contents are never uploaded; end-to-end characterisation of the upload. 'Uploaded/shown iff contents differ' is FALSE of "
+       "the code (decision taken on splitlines: 'a' vs 'a\\n', CRLF vs LF, missing vs empty): kernel-checked witnesses, partial "
+       "theorems (iff lines differ; full iff for canonical Unix texts), recorded as known findings. Tie: real functions vs model on "
+       "43k (quick) cases incl. exhaustive separator/terminator streams; oracle: the property's clauses on the real code.",
+  note=COMMON_NOTE + "difflib.unified_diff is a parameter with assumption UdSpec (validated on every case); re \\w modelled on a "
+       "declared character domain; JSON_FRAGMENT generators and FrrFileDiffer's frr.conf branch are not modelled.",
+  design="§5 C19", technique="Lean 4 proof (fold/argmax lemmas, splitlines model) + differential correspondence"),
 }
 REASONS = {}
 def main():
